@@ -140,7 +140,7 @@ Example C08_read_error_safe_nonvacuous :
 Proof. exact read_error_safe_nonvacuous. Qed.
 Example C08_error_limit_nonvacuous :
   let r := sync_loop_w hz 1024 1 (mkSO false false 2) 7 wfs (fun p => if Nat.eqb p 1 || Nat.eqb p 4 then [Some RdIoCont] else [])
-                       (fun _ _ => WOk) (Threaded 3) (fun _ => 1) (seq 0 8) None 0 [] 0 wc wpar 0 0 0 in
+                       (fun _ _ => WOk) (Threaded 3) (fun _ _ => 1) (seq 0 8) None 0 [] 0 wc wpar 0 0 0 in
   ro_bailed (w_run r) = true /\ ro_nio (w_run r) = 2 /\ recorded_healthy (ro_content (w_run r)) 5 = false.
 Proof. exact error_limit_nonvacuous. Qed.
 Example C08_scrub_read_error_nonvacuous :
